@@ -615,6 +615,19 @@ func GenPair(seed uint64, o GenOpts) *Pair {
 			p.New.PutSymlink("lnk-same", d)
 			p.feat("symlink-kept")
 		}
+		if r.Chance(0.25) {
+			// the destination changes only in SPELLING between the builds (the string is what a build records)
+			if t := targets(p.New); len(t) > 0 {
+				a := r.PickStr(t)
+				b := []string{"./" + a, "x/../" + a, a + "/.", "sub/../" + a}[r.Intn(4)]
+				if r.Bool() {
+					a, b = b, a
+				}
+				p.Old.PutSymlink("lnk-respelled", a)
+				p.New.PutSymlink("lnk-respelled", b)
+				p.feat("symlink-respelled")
+			}
+		}
 	}
 	if o.EmptyOld {
 		p.Old = NewBuild()
@@ -629,7 +642,7 @@ func GenPair(seed uint64, o GenOpts) *Pair {
 	if o.ForceKindSwap > 0 {
 		g.kindSwapN(o.ForceKindSwap-1, o.ForceRename)
 	} else if o.KindSwaps && r.Chance(0.6) {
-		g.kindSwapN(r.Intn(7), r.Chance(0.4))
+		g.kindSwapN(r.Intn(10), r.Chance(0.4))
 	}
 	return p
 }
@@ -685,6 +698,20 @@ func (g *genState) kindSwapN(which int, withRename bool) {
 			p.New.PutFile("ks/d2s-c-moved.bin", d1)
 			p.feat("kind:dir->symlink+renamesrc")
 		}
+	case 7: // symlink -> regular file that is a COPY of the old file the link pointed to (which stays)
+		d := small()
+		p.Old.PutFile("ks/s2fc-target.bin", d)
+		p.New.PutFile("ks/s2fc-target.bin", d)
+		p.Old.PutSymlink("ks/s2fc", "s2fc-target.bin")
+		p.New.PutFile("ks/s2fc", d)
+		p.feat("kind:symlink->file(copy-of-its-target)")
+	case 8: // dangling symlink -> regular file that is a copy of some old file
+		d := small()
+		p.Old.PutFile("ks/s2fd-src.bin", d)
+		p.New.PutFile("ks/s2fd-src.bin", d)
+		p.Old.PutSymlink("ks/s2fd", "elsewhere")
+		p.New.PutFile("ks/s2fd", d)
+		p.feat("kind:symlink->file(copy-of-old-file)")
 	default: // symlink -> dir
 		p.Old.PutSymlink("ks/s2d", "elsewhere")
 		p.New.PutFile("ks/s2d/c.bin", small())
